@@ -9,6 +9,9 @@ from . import AnalysisError
 
 _ids = itertools.count(1)
 
+# analysis options: 'unit_groups' lets a join treat ((1, S),) and S as the same composition
+OPTIONS = {"unit_groups": False}
+
 
 class SymObj:
     """Abstract heap object.  Attributes live in State.heap[obj.id]."""
@@ -191,7 +194,19 @@ def merge(cond, a, b):
             return a
     except Exception:
         pass
-    if isinstance(a, (tuple, list)) and isinstance(b, (tuple, list)) and type(a) is type(b) and len(a) == len(b):
+    if OPTIONS["unit_groups"] and isinstance(cond, sp.Ne) and cond.args[1] == 1 and isinstance(a, tuple) \
+            and len(a) == 1 and isinstance(a[0], tuple) and len(a[0]) == 2 and _alg(a[0][0]) \
+            and to_expr(a[0][0]) == cond.args[0] and (a[0][1] is b or a[0][1] == b):
+        # phi(n != 1, ((n, S),), S): the same composition - a group with count 1 (composition analyses only)
+        return a
+    Bool = sp.logic.boolalg.Boolean
+    if isinstance(a, (bool, Bool)) and isinstance(b, (bool, Bool)):
+        ba = sp.true if a is True else sp.false if a is False else a
+        bb = sp.true if b is True else sp.false if b is False else b
+        r = sp.ITE(cond, ba, bb)
+        return True if r is sp.true else False if r is sp.false else r
+    if isinstance(a, (tuple, list)) and isinstance(b, (tuple, list)) and type(a) is type(b) and len(a) == len(b) \
+            and all(_compat(x, y) for x, y in zip(a, b)):
         return type(a)(merge(cond, x, y) for x, y in zip(a, b))
     if isinstance(a, Vec) and isinstance(b, Vec) and len(a) == len(b):
         return Vec(merge(cond, x, y) for x, y in zip(a, b))
@@ -201,9 +216,56 @@ def merge(cond, a, b):
         ea, eb = to_expr(a), to_expr(b)
         if ea == eb:
             return ea
+        # phi(x != c, a, b) is a when b is what a becomes at x == c (e.g. the n == 1 shortcut of n*f)
+        if isinstance(cond, (sp.Ne, sp.Eq)):
+            l, r = cond.args
+            keep, other = (ea, eb) if isinstance(cond, sp.Ne) else (eb, ea)
+            try:
+                dd = keep.subs(l, r) - other.subs(l, r)
+                if dd == 0 or (sp.count_ops(dd) < 150 and sp.expand(dd) == 0):
+                    return keep
+                if sp.count_ops(keep) < 400 and _zero_when(l - r, keep - other):
+                    return keep
+            except Exception:
+                pass
         return sp.Piecewise((ea, cond), (eb, True))
     return Phi(cond, a, b)
 
 
 def _alg(v):
     return (isinstance(v, sp.Expr) or (isinstance(v, (int, float, complex)) and not isinstance(v, bool)))
+
+
+def _zero_when(eqn, d):
+    """Is d == 0 whenever eqn == 0?  Decided by solving eqn linearly for one symbol
+    (min/max sub-terms treated as opaque) and substituting."""
+    opaque = {m: sp.Dummy(positive=True) for m in (eqn.atoms(sp.Min, sp.Max, sp.core.function.AppliedUndef) | d.atoms(sp.Min, sp.Max, sp.core.function.AppliedUndef))}
+    e2, d2 = eqn.xreplace(opaque), d.xreplace(opaque)
+    num = sp.numer(sp.together(e2))
+    for s in sorted(num.free_symbols, key=str):
+        if s in opaque.values():
+            continue
+        p = sp.Poly(num, s) if num.is_polynomial(s) else None
+        if p is None or p.degree() != 1:
+            continue
+        a, b = p.all_coeffs()
+        if a == 0:
+            continue
+        sol = -b / a
+        if sp.cancel(sp.together(d2.subs(s, sol))) == 0:
+            return True
+        return False
+    return False
+
+
+def _compat(a, b):
+    """Can two values be joined element-wise without creating hybrid shapes?"""
+    if a is b:
+        return True
+    if _alg(a) and _alg(b):
+        return True
+    if isinstance(a, (tuple, list)) and isinstance(b, (tuple, list)):
+        return type(a) is type(b) and len(a) == len(b) and all(_compat(x, y) for x, y in zip(a, b))
+    if isinstance(a, (bool, str, type(None))) and isinstance(b, (bool, str, type(None))):
+        return a == b
+    return False
